@@ -1,11 +1,28 @@
-import CedarVerif.Lemmas.BatchedBudget
+import CedarVerif.Lemmas.BatchedUids
 import CedarVerif.Lemmas.TpeViews
 /-
 C15 — batched (loader-driven) authorization equals ordinary authorization.  Property theorems only
 (helpers: Lemmas/Batched*.lean).  Model: Cedar/Batched.lean (`run budget loader`), on top of Cedar/Tpe.lean.
 The loop is treated for ARBITRARY loaders; what a theorem needs of the loader is a named hypothesis:
 `StepOk` (no round fails: true of loaders that never return an id that is already loaded — the others run into the
-`Duplicate` error, known finding C15-loader-repeat-duplicate), `Complete` (everything asked for is returned).
+`Duplicate` error, known finding C15-loader-repeat-duplicate), `Complete` (everything asked for is returned),
+`Faithful loader es` (what the loader returns for an id is what the store `es` holds, `None` iff absent).
+
+PROVED: `budget_monotone` (full); `batched_decision_sound` — every decision `run b` returns is the decision of ordinary
+authorization, for every budget and every faithful loader, from C14's `interpret_typeSafe` and the lemma
+**missing ≡ empty** (`Tpe.eval_pad`: padding a store with empty entities changes no evaluation result up to the error
+class), WITHOUT any hypothesis about the states of the loop; what remains are three hypotheses about the INPUT:
+`TypedSafe` (no node of a typed condition raises a type error on request and store — validation), `TypedAgrees` (the
+typed condition evaluates like the policy condition), and for `enough_budget_sound` also `CondsBool` (conditions are
+boolean-valued).  `enough_budget_sound`: progress (`interpret_partial_unloaded`: a `Partial` residual under a concrete
+request and fully known entities mentions an unloaded id) and Bool-typedness of the residuals are now PROVED; the only
+remaining hypothesis about the loop is boundedness `hU` (the ids requested stay inside the universe `U`) — and
+`enough_budget_full` PROVES that too (`interpret_uidsIn`: ids of an interpreted residual are ids of the input, of the
+request, or of loaded attribute / tag values), from `Universe U q es tps`: a checkable condition on the INPUT (`U` holds
+the ids of the request, of the typed conditions and of the attribute / tag values of the store).  `LoopInv` and
+`SoundStates` no longer occur as hypotheses of the main theorems.
+The older `batched_decision_sound_partial` / `enough_budget` (under the abstract `SoundStates` / `LoopInv`) are kept: the
+new theorems instantiate them with the concrete invariant `SInv`.
 -/
 namespace Cedar.C15
 open Cedar Cedar.Tpe Cedar.Batched
@@ -114,6 +131,60 @@ theorem batched_decision_sound_partial (loader : Loader) (q : Request) (es : Ent
       rw [hp] at hc
       rw [hc]; exact ht.symm
 
+/-- **batched_decision_sound**: whenever `run b` returns a decision, it is the decision of ordinary authorization over
+the store `es` — for EVERY budget and EVERY loader that answers from `es` (`Faithful`; it may return more than asked, it
+may miss entities: those are loaded as empty ones).  No hypothesis about the states of the loop: `SoundStates` is
+discharged with the invariant `SInv` (the loaded store is completed by `es` padded with empty entities for the ids
+loaded as missing — `completes_pad`; each residual evaluates on every such completion like the typed condition it
+started from — C14 `interpret_typeSafe`, step by step; and evaluation on the padded store is evaluation on `es` —
+**missing ≡ empty**, `eval_pad`).  Hypotheses about the input only: `TypedSafe` (dynamic type safety of the typed
+conditions on `q`, `es`: what validation gives) and `TypedAgrees` (typed condition ≈ policy condition). -/
+theorem batched_decision_sound (loader : Loader) (q : Request) (es : Entities) (tps : List TPolicy)
+    (hF : Faithful loader es) (hT : TypedSafe q es tps) (hE : TypedAgrees q es tps)
+    (b : Nat) (d : Decision) (h : run b loader q tps = .ok d) :
+    d = (Cedar.isAuthorized q es (tps.map (·.policy))).decision := by
+  cases h0 : initState (prequestOf q) tps with
+  | none => simp [run, h0] at h
+  | some st0 =>
+    exact batched_decision_sound_partial loader q es tps (SInv q es tps)
+      ⟨fun _ _ hi hs => sinv_step hF hi hs, fun _ hi => sinv_sound hE hi, fun _ hi => sinv_wf hi⟩
+      st0 h0 (sinv_init hT h0) (fun _ hi => hi.pols) b d h
+
+/-- **enough_budget_sound**: with `U` ⊇ the ids ever requested (`hU`), every budget larger than `|U|` yields a decision,
+and it is the decision of ordinary authorization.  Progress of the loop and Bool-typedness of the residuals are proved
+(`sinv_loopInv`: `interpret_partial_unloaded`, `sinv_boolTyped`); `LoopInv` is no longer a hypothesis. -/
+theorem enough_budget_sound (loader : Loader) (q : Request) (es : Entities) (tps : List TPolicy) (U : List EntityUID)
+    (hF : Faithful loader es) (hok : StepOk (prequestOf q) loader) (hl : Complete loader)
+    (hT : TypedSafe q es tps) (hE : TypedAgrees q es tps) (hB : CondsBool q es tps)
+    (hU : ∀ st, SInv q es tps st → ∀ u, u ∈ st.toLoad → u ∈ U)
+    (st0 : State) (h0 : initState (prequestOf q) tps = some st0)
+    (b : Nat) (hb : U.length < b) :
+    run b loader q tps = .ok (Cedar.isAuthorized q es (tps.map (·.policy))).decision := by
+  obtain ⟨d, hd⟩ := enough_budget loader q tps U (SInv q es tps) (sinv_loopInv hF hE hB hU) hok hl st0 h0 (sinv_init hT h0) b hb
+  rw [hd, batched_decision_sound loader q es tps hF hT hE b d hd]
+
+/-- **enough_budget_full**: NO hypothesis about the loop.  If `U` contains the ids of the request, of the typed conditions
+and of the attribute / tag values of the store (`Universe`), then every budget larger than `|U|` yields a decision — the
+decision of ordinary authorization — for every faithful, complete loader whose rounds do not fail (`StepOk`: see the known
+finding about repeating loaders).  Remaining hypotheses are about the input: `TypedSafe`, `TypedAgrees`, `CondsBool`
+(validation), and that `policy_residual_map` succeeds (`h0`: no slot / unknown in a policy). -/
+theorem enough_budget_full (loader : Loader) (q : Request) (es : Entities) (tps : List TPolicy) (U : List EntityUID)
+    (hF : Faithful loader es) (hok : StepOk (prequestOf q) loader) (hl : Complete loader)
+    (hT : TypedSafe q es tps) (hE : TypedAgrees q es tps) (hB : CondsBool q es tps) (hU : Universe U q es tps)
+    (st0 : State) (h0 : initState (prequestOf q) tps = some st0)
+    (b : Nat) (hb : U.length < b) :
+    run b loader q tps = .ok (Cedar.isAuthorized q es (tps.map (·.policy))).decision := by
+  obtain ⟨d, hd⟩ := enough_budget loader q tps U (SInvU q es tps U) (sinvU_loopInv hF hE hB hU) hok hl st0 h0
+    (sinvU_init hT hU h0) b hb
+  rw [hd, batched_decision_sound loader q es tps hF hT hE b d hd]
+
+/-- the store loader is faithful -/
+theorem storeLoader_faithful (es : Entities) : Faithful (storeLoader es) es := by
+  intro ids u d hm
+  simp only [storeLoader, List.mem_map] at hm
+  obtain ⟨u', _, heq⟩ := hm
+  cases heq; rfl
+
 /-- the exact store loader never fails a round: it returns exactly the requested ids, which are duplicate-free and not
     loaded yet -/
 theorem storeLoader_complete (es : Entities) : Complete (storeLoader es) := by
@@ -134,5 +205,66 @@ example :
     run 2 (storeLoader es) q tps = .ok .allow ∧ run 3 (storeLoader es) q tps = .ok .allow ∧
     (Cedar.isAuthorized q es (tps.map (·.policy))).decision = .allow := by
   decide +kernel
+
+/-- non-vacuity of `batched_decision_sound` / `enough_budget_sound`: their hypotheses about the input hold for the
+    two-round example above (`principal has manager && principal.manager.name like "*"`, exact store loader) -/
+example :
+    let user (mgr : Option String) : EntityData :=
+      ⟨(match mgr with | some m => [("manager", Value.prim (.entityUID ⟨"User", m⟩))] | none => []) ++ [("name", .prim (.string "x"))], [], []⟩
+    let es : Entities := [(⟨"User", "a"⟩, user (some "b")), (⟨"User", "b"⟩, user none)]
+    let q : Request := ⟨⟨"User", "a"⟩, ⟨"Action", "view"⟩, ⟨"Doc", "d"⟩, []⟩
+    let cond : Expr := .and (.hasAttr (.var .principal) "manager") (.like (.getAttr (.getAttr (.var .principal) "manager") "name") [.star])
+    let tps : List TPolicy := [⟨⟨"p0", .permit, cond, []⟩, cond⟩]
+    Faithful (storeLoader es) es ∧ TypedSafe q es tps ∧ TypedAgrees q es tps ∧ CondsBool q es tps ∧
+    Universe [⟨"User", "a"⟩, ⟨"Action", "view"⟩, ⟨"Doc", "d"⟩, ⟨"User", "b"⟩] q es tps := by
+  intro user es q cond tps
+  let l : Residual := .part (.hasAttr (.part (.var .principal) "") "manager") ""
+  let r : Residual := .part (.like (.part (.getAttr (.part (.getAttr (.part (.var .principal) "") "manager") "") "name") "") [.star]) ""
+  have hl : l.eval q es = .ok (.prim (.bool true)) := by rfl
+  have hr : r.eval q es = .ok (.prim (.bool true)) := by rfl
+  refine ⟨storeLoader_faithful es, ?_, ?_, ?_, ?_⟩
+  rotate_left 3
+  · refine ⟨⟨?_, by decide, ?_, ?_⟩, ?_, ?_⟩
+    · intro u hu; cases hu; decide
+    · intro u hu; cases hu; decide
+    · intro c hc; cases hc; intro x hx; cases hx
+    · intro u d hf
+      simp only [es, Entities.find?] at hf
+      split at hf
+      · cases hf
+        refine ⟨?_, fun x hx => by cases hx⟩
+        intro x hx
+        simp only [user, List.cons_append, List.nil_append, valueUidsKVs, valueUids, List.append_nil, List.mem_singleton] at hx
+        subst hx; decide
+      · split at hf
+        · cases hf
+          exact ⟨fun x hx => by simp [user, valueUidsKVs, valueUids] at hx, fun x hx => by cases hx⟩
+        · cases hf
+    · intro tp htp r0 h0
+      simp only [tps, List.mem_singleton] at htp; subst htp
+      have h1 : Residual.ofExpr cond = some (.part (.and l r) "") := by rfl
+      rw [h1] at h0; cases h0
+      exact uidsIn_nil rfl
+  · intro tp htp r0 h0
+    simp only [tps, List.mem_singleton] at htp; subst htp
+    have h1 : Residual.ofExpr cond = some (.part (.and l r) "") := by rfl
+    rw [h1] at h0; cases h0
+    refine .and (.hasAttr (.var _ _) ?_) ?_ (fun _ => .like (.getAttr (.getAttr (.var _ _))) ?_) ?_
+    · intro v hv
+      have : (Residual.part (.var .principal) "").eval q es = .ok (.prim (.entityUID ⟨"User", "a"⟩)) := by rfl
+      rw [this] at hv; cases hv; simp [hasAttrV, Entities.find?]
+    · intro v hv; rw [hl] at hv; cases hv; exact ⟨true, rfl⟩
+    · intro v hv
+      have : (Residual.part (.getAttr (.part (.getAttr (.part (.var .principal) "") "manager") "") "name") "").eval q es =
+          .ok (.prim (.string "x")) := by rfl
+      rw [this] at hv; cases hv; simp [likeV, Value.asString]
+    · intro _ v hv; rw [hr] at hv; cases hv; exact ⟨true, rfl⟩
+  · intro tp htp
+    simp only [tps, List.mem_singleton] at htp; subst htp
+    exact Agree.rfl' _
+  · intro tp htp v hv
+    simp only [tps, List.mem_singleton] at htp; subst htp
+    have : evaluate q es [] cond = .ok (.prim (.bool true)) := by rfl
+    rw [this] at hv; cases hv; exact ⟨true, rfl⟩
 
 end Cedar.C15
